@@ -1,5 +1,5 @@
 """C11 - cutting (MarshalTo) yields exactly the projection onto the target schema (DESIGN.md 3/C11)."""
-import json, os
+import hashlib, json, os, subprocess
 import vlib
 
 ASSUME = [
@@ -17,17 +17,29 @@ RULE = ("cases = every state (descriptor pair, value, options) of MC_Cut (target
 
 def run(R):
     q = R.tier == "quick"
-    mc = R.model_check("MC_Cut", "MC_Cut_quick.cfg" if q else "MC_Cut_thorough.cfg", timeout=3000, workers=8)
-    cases = [r for r in mc["records"] if r.get("tag") == "case"]
-    mc["records"] = None
-    for c in cases:
-        c["_k"] = json.dumps(c["desc"], sort_keys=True)
-    cases.sort(key=lambda c: c["_k"])
+    # the cases go straight from TLC's output to a file (the thorough configuration emits millions), grouped by descriptor
+    raw = os.path.join(R.scratch, "c11-raw.tsv")
+    cnt, first = [0], []
+    with open(raw, "w") as f:
+        def sink(r):
+            if r.get("tag") != "case":
+                return
+            k = hashlib.sha1(json.dumps(r["desc"], sort_keys=True).encode()).hexdigest()
+            f.write(k + "\t" + json.dumps(dict(desc=r["desc"], t=r["t"], b=r["b"], o=r["o"])) + "\n")
+            cnt[0] += 1
+            if not first:
+                first.append(r)
+        R.model_check("MC_Cut", "MC_Cut_quick.cfg" if q else "MC_Cut_thorough.cfg", timeout=3000, workers=8, sink=sink)
+    if not first:
+        raise vlib.Broken("MC_Cut emitted no case")
+    subprocess.run(["sort", "-s", "-t", "\t", "-k1,1", "-o", raw, raw], env=dict(os.environ, LC_ALL="C"), check=True)
     cf = os.path.join(R.scratch, "c11-cases.ndjson")
-    with open(cf, "w") as f:
-        for c in cases:
-            f.write(json.dumps(dict(desc=c["desc"], t=c["t"], b=c["b"], o=c["o"])) + "\n")
-    R.samples.append(dict(kind="tlc-case", t=cases[0]["t"], b=cases[0]["b"], o=cases[0]["o"], to=cases[0]["desc"]["structs"].get("RootT")))
+    with open(raw) as fi, open(cf, "w") as fo:
+        for ln in fi:
+            fo.write(ln.split("\t", 1)[1])
+    os.remove(raw)
+    ncases = cnt[0]
+    R.samples.append(dict(kind="tlc-case", t=first[0]["t"], b=first[0]["b"], o=first[0]["o"], to=first[0]["desc"]["structs"].get("RootT")))
     tr1 = os.path.join(R.scratch, "c11-a.ndjson")
     R.drive("c11", "out=" + tr1, "cases=" + cf, timeout=3000)
     R.validate("Trace_Cut", tr1, reset_events=("Desc",), timeout=3000)
@@ -35,7 +47,7 @@ def run(R):
     n = 1500 if q else 40000
     R.drive("c11", "out=" + tr2, "n=%d" % n, "seed=%d" % R.seed, timeout=3000)
     R.validate("Trace_Cut", tr2, reset_events=("Desc",), timeout=3000)
-    R.extra_cov["tlc_cases_replayed"] = len(cases)
+    R.extra_cov["tlc_cases_replayed"] = ncases
     # ---- Protobuf half ----
     mc2 = R.model_check("MC_PCut", "MC_PCut_quick.cfg" if q else "MC_PCut_thorough.cfg", timeout=3000, workers=8)
     schema = [r for r in mc2["records"] if r.get("tag") == "schema"][0]["schema"]
